@@ -29,6 +29,12 @@ def judge(case, obs, res):
     v = scen.verdicts(obs)
     ok = all(x == "ok" for x in v) and v
     exp = m["expect"]
+    if m.get("mem_edit"):
+        # the parsed layout was changed in memory through its public fields before it was handed to the verifier
+        if obs.get("mem_edit_applied") and obs.get("mem_edit_changed_value"):
+            exp = "reject"
+            m["reason"] = f"the parsed layout was changed in memory after signing ({m['mem_edit']})"
+            m["mem_edit_effective"] = True
     if m.get("content_edit") and obs.get("same_as_orig") is True:
         exp = "either"   # semantics-preserving edit (DESIGN §6): parsed value unchanged
         m["sempres"] = True
@@ -212,6 +218,8 @@ def shard(binpath, seed, sh, n):
         meta = {"signers": S, "map": M, "mapdesc": mapdesc, "action": desc, "expect": expect, "reason": reason,
                 "content_edit": content_edit, "keytypes": sorted({k.split("-")[0].rstrip("0123456789") for k in S})}
         case = scen.verify_case(wire, pairs, files, orig_layout=lw if content_edit else None, meta=meta)
+        if action == "none" and expect == "accept" and rng.random() < 0.45:
+            meta["mem_edit"] = case["mem_edit"] = rng.choice(["rekey_swap", "rekey_swap", "rekey_alias", "readme", "drop_step", "expires"])
         if action != "none" and rng.random() < 0.5:
             # history: the layout as it was signed is verified first, in the same process and with the same caller key
             # objects; what these keys have accepted before must not carry over to the edited / re-signed document
@@ -229,6 +237,8 @@ def shard(binpath, seed, sh, n):
         cls += ["ownerkey:" + t for t in m["keytypes"]]
         if m.get("sempres"):
             cls.append("semantics_preserving_edit")
+        if m.get("mem_edit"):
+            cls.append(f"in_memory_edit:{m['mem_edit']}:" + ("effective" if m.get("mem_edit_effective") else "not_applicable"))
         if m.get("after_genuine"):
             cls.append("history:genuine_layout_verified_first:" + str((o.get("pre_runs") or ["?"])[0] == "ok"))
         if m["expect"] == "accept" and ok:
@@ -256,5 +266,6 @@ def main(ctx):
         assumptions=["signature validity ground truth is by construction", "value equality for 'semantics-preserving' is the library's PartialEq"],
         required=["positive_control_accepted", "positive:ed", "positive:ec", "positive:rsa", "map:empty", "map:two_ids",
                   "map:superset", "map:disjoint", "map:subset", "map:plus_unknown_scheme_key", "action:content:set", "action:sig:flip", "action:sig:relabel",
-                  "action:sig:other_content", "action:sig:drop", "action:sig:resign_by_other", "expect:reject", "observed:reject", "history:genuine_layout_verified_first:True"],
+                  "action:sig:other_content", "action:sig:drop", "action:sig:resign_by_other", "expect:reject", "observed:reject", "history:genuine_layout_verified_first:True",
+                  "in_memory_edit:rekey_swap:effective", "in_memory_edit:readme:effective"],
         min_evals=500)
